@@ -3,6 +3,7 @@ import json
 import random
 from vlib import core
 from vlib.core import cz, cnat, cbool, copt, clist
+from props import c20conc
 
 MANIFEST = dict(
     text='Theorems (Coq, all histories of create / new-proxy / release / drop / call events from any number of '
@@ -1045,20 +1046,36 @@ def correspond_life(res, only=None):
 
 
 def run(res):
-    res.proof_step('Props/C20.v', extra_targets=['Model/Manager.vo'], kernels_needed=['G_manager'])
+    import time
+    phases = {}
+
+    def timed(name, fn, *a, **kw):
+        t0 = time.time()
+        try:
+            return fn(*a, **kw)
+        finally:
+            phases[name] = round(time.time() - t0, 1)
+            res.cov['phase_wall_s'] = dict(phases)
+    timed('proof (incl. waiting for the shared build lock)', res.proof_step, 'Props/C20.v',
+          extra_targets=['Model/Manager.vo'], kernels_needed=['G_manager'])
     n = 150 if res.tier == 'quick' else 4000
     if res.broken:
         n = max(n, 1500)
-    late = correspond_server(res, n)
-    late += correspond_client(res, 40 if res.tier == 'quick' and not res.broken else min(n // 3, 800))
-    late += correspond_procs(res, 25) if res.tier != 'quick' else \
-        correspond_procs(res, 0, only=[SPAWN_CASE, SPAWN_AUTO_CASE, KILL_CASE])
-    correspond_life(res)
+    late = timed('server', correspond_server, res, n)
+    late += timed('client', correspond_client, res,
+                  40 if res.tier == 'quick' and not res.broken else min(n // 3, 800))
+    late += timed('procs', correspond_procs, res, 25) if res.tier != 'quick' else \
+        timed('procs', correspond_procs, res, 0, only=[SPAWN_CASE, SPAWN_AUTO_CASE, KILL_CASE])
+    timed('life', correspond_life, res)
+    # "each single operation from concurrent clients takes effect atomically": real client processes and
+    # threads hammering one referent through its proxy (props/c20conc.py, harness/mgr_conc_driver.py)
+    timed('conc', c20conc.correspond_conc, res)
     # a history on which the statement itself fails (a referent outliving every proxy / disposed
     # under a live proxy) is reported before the differences from the model that accompany it;
     # the repaired Iterator defect, if it is back, stays first
     rank = {'C20:iterator-proxy-next-not-exposed': 0, 'C20:referent-survives-all-proxies': 1,
-            'C20:referent-disposed-while-proxy-lives': 1}
+            'C20:referent-disposed-while-proxy-lives': 1, 'C20:concurrent-update-lost': 1,
+            'C20:concurrent-operation-not-atomic': 1, 'C20:table-update-without-mutex': 1}
     res.alarms.sort(key=lambda a: rank.get(a['signature'], 2))
     # defects of the unchanged tree (see docs/C20.md): one alarm per signature, smallest witness,
     # after everything else so that a new problem is reported first
@@ -1099,6 +1116,9 @@ def replay(path):
             print(' ', b.get('kind'), b.get('name'))
         return 1
     c = rp['case']
+    if rp['mode'] == 'conc':
+        print('signature:', d.get('signature'))
+        return c20conc.replay_conc(c)
     out = core.run_driver('mgr_driver.py', dict(mode=rp['mode'], cases=[c]), timeout=900)[0]
     print('signature:', d.get('signature'))
     print('case:', json.dumps(c))
